@@ -777,6 +777,24 @@ def v1_parse(version_str, pattern):
     return {"ok": v1_info_json(vi)}
 
 
+def v1_rewrite_content(pairs, vj, content):
+    """the legacy rewrite path on one file's content: compile_pattern per (version_pattern, raw_pattern) pair, rfd_from_content, re-join"""
+    from bumpver import v1patterns, v1rewrite, rewrite
+    import re
+    _quiet()
+    try:
+        pats = [v1patterns.compile_pattern(vp, raw) for vp, raw in pairs]
+    except re.error:
+        return {"unsupported": 1}           # the model's patterns carry no compiled regex: a re.error at compile time is outside it
+    try:
+        rfd = v1rewrite.rfd_from_content(pats, v1_info_from_json(vj), content)
+    except rewrite.NoPatternMatch:
+        return {"err": "NoPatternMatch"}
+    except _V1_EXC as ex:
+        return _v1_err(ex)
+    return {"ok": rfd.line_sep.join(rfd.new_lines)}
+
+
 def v1_format(vj, pattern):
     from bumpver import v1version
     try:
